@@ -82,6 +82,15 @@ LEAVES = [
      [P("self._loop_thread", "has_thread", "bool")], "bool", {}),
     ("Shutdown", "shutdown_threads_stops_loop", "_core.py", "Zeroconf._shutdown_threads", ("call_before", "shutdown_loop", "_loop_thread.join"), [], "bool", {}),
     ("Shutdown", "shutdown_threads_forgets_thread", "_core.py", "Zeroconf._shutdown_threads", ("has_stmt", "self._loop_thread = None"), [], "bool", {}),
+    # ---- the timeout handle of a task waiting in Zeroconf.async_wait / ServiceInfo.async_wait (`wait_for_future_set_or_timeout`): it
+    # outlives a close by one loop iteration (the close's last step resolves the future through `async_notify_all`, the task cancels the
+    # handle only when it is resumed) -- both the handle and the notification go through the done-guard
+    ("Shutdown", "waiter_timer_guarded", "_utils/asyncio.py", "wait_for_future_set_or_timeout",
+     ("call_has_arg", "loop.call_later", "_set_future_none_if_not_done", 0), [], "bool", {}),
+    ("Shutdown", "waiter_guard_sets", "_utils/asyncio.py", "_set_future_none_if_not_done", ("if", "fut.done()", 0),
+     [P("fut.done()", "fut_done", "bool")], "bool", {}),
+    ("Shutdown", "resolve_all_guarded", "_utils/asyncio.py", "_resolve_all_futures_to_none", ("has_call", "_set_future_none_if_not_done"), [], "bool", {}),
+    ("Shutdown", "waiter_cancels_handle", "_utils/asyncio.py", "wait_for_future_set_or_timeout", ("has_call", "handle.cancel"), [], "bool", {}),
     ("Shutdown", "started", "_core.py", "Zeroconf.started", ("ret",),
      [P("self.done", "done", "bool"), P("self.engine.running_event", "has_event", "bool"),
       P("self.engine.running_event.is_set()", "is_set", "bool")], "bool", {}),
